@@ -347,6 +347,11 @@ fn strip_module_prefix(p: &mut syn::Path, cx: &mut Ctx, is_type: bool) {
 pub fn a5_normalise(b: &mut syn::Block, cx: &mut Ctx) -> bool {
     // drop log statements first so that `log; async { .. }` counts as a single async block
     b.stmts.retain(|s| match s { Stmt::Macro(m) => !is_dropped_macro(&m.mac), _ => true });
+    // `let`s that only compute values (no await can be in them: the function is not async) followed by the async block: what they
+    // compute is computed when the function is called instead of at the first poll, with nothing observable in between
+    if b.stmts.len() > 1 && b.stmts[..b.stmts.len() - 1].iter().all(|st| matches!(st, Stmt::Local(_))) {
+        if let Some(Stmt::Expr(Expr::Async(a), None)) = b.stmts.last() { let mut all: Vec<Stmt> = b.stmts[..b.stmts.len() - 1].to_vec(); all.extend(a.block.stmts.clone()); b.stmts = all; let _ = cx; return true; }
+    }
     if b.stmts.len() != 1 { return false; }
     let Stmt::Expr(e, None) = &b.stmts[0] else { return false; };
     match e {
@@ -828,7 +833,7 @@ impl<'c> VisitMut for Rw<'c> {
         // D4: Box::pin(x) -> x ; x.fuse() -> x ; Box::new(x) stays (T1 handles it through the path map)
         loop {
             match e {
-                Expr::Call(c) if c.args.len() == 1 && nospace(&c.func.to_token_stream().to_string()) == "Box::pin" => { let inner = c.args[0].clone(); self.cx.fire("D4"); *e = inner; }
+                Expr::Call(c) if c.args.len() == 1 && matches!(nospace(&c.func.to_token_stream().to_string()).as_str(), "Box::pin" | "Pin::new" | "std::pin::Pin::new" | "pin::Pin::new") => { let inner = c.args[0].clone(); self.cx.fire("D4"); *e = inner; }
                 Expr::MethodCall(m) if (m.method == "fuse" || m.method == "boxed" || m.method == "boxed_local") && m.args.is_empty() => { let inner = (*m.receiver).clone(); self.cx.fire("D4"); *e = inner; }
                 _ => break,
             }
